@@ -670,6 +670,59 @@ def dbl_n_identity(rep, u, fname="ec_point_proj_dbl_n"):
     return 1
 
 
+
+def naf_headroom_rule(rep, u, fname="bn_calc_naf"):
+    """The NAF recoding adds |item| < 2^(w-1) to its working copy whenever the low window is 'negative'; for a scalar that
+    fills its object (2^m - 1 in an m-bit object; every scalar of the top window on a small curve) that addition carries
+    out of a copy of the same capacity.  The working copy therefore has at least one digit more than the scalar's
+    significant digits.  Evaluated: the capacity expression of the copy's initialiser with digits = count = 4."""
+    from rules import r_mpt
+    fn = u.fn(fname)
+    if fn is None or not fn.has_cfg:
+        raise driver.AnalysisBroken("anchor %s vanished" % fname)
+    rep.functions.add(fname)
+    adds = [c for _p, _r, c, _ps in fn.calls({"bn_add_digit"})]
+    if not adds:
+        raise driver.AnalysisBroken("%s: the recoding addition not found" % fname)
+    tgt = core.base_ref(adds[0]["args"][0])
+    src = fn.params[0]
+    desc = "%s: the working copy %s has a digit of head room over the scalar" % (fname, tgt["n"] if tgt else "?")
+    if tgt is None or tgt.get("dk") != "local":
+        rep.violated("R-CAP", fn, "naf-head-room", desc, "the recoding adds into %s, not into a local copy" % key(adds[0]["args"][0]))
+        return 1
+    D = 4
+    cap = None
+    how = None
+    for _p, _r, c, _ps in fn.calls({"bn_assign_init", "bn_init"}):
+        b = core.base_ref(c["args"][0])
+        if b is None or b.get("id") != tgt["id"]:
+            continue
+        if c["fn"] == "bn_assign_init":
+            cap, how = D, "bn_assign_init: the capacity of the scalar's object"
+        else:
+            env = {}
+            for y, _ in walk(c["args"][1]):
+                if y.get("k") == "mem" and y["f"] in ("digits", "count") and core.base_ref(y) is not None and core.base_ref(y).get("id") == src["id"]:
+                    env[id(y)] = D
+            try:
+                bits = r_mpt.eval_expr(c["args"][1], env)
+                dbits = None
+                for y, _ in walk(c["args"][1]):
+                    if "BN_DIGIT_BITS" in core.macros(y) and const_val(y) is not None:
+                        dbits = const_val(y)
+                if dbits:
+                    cap, how = bits // dbits, "bn_init(%s)" % key(c["args"][1])[:50]
+            except r_mpt.Unknown:
+                pass
+    if cap is None:
+        rep.undecided("R-CAP", fn, "naf-head-room", desc, "capacity of the working copy not evaluated")
+    elif cap >= D + 1:
+        rep.proved("R-CAP", fn, "naf-head-room", desc, "%s = %d digits for a %d digit scalar" % (how, cap, D))
+    else:
+        rep.violated("R-CAP", fn, "naf-head-room", desc, "%s: for k = 2^m - 1 in an m-bit object (and 0xf9..0xff on a curve over F_251 with 8-bit digits) the first negative "
+                     "item carries out, the interleaved twin multiplication returns EOVERFLOW where the JSF and binary ones return the point" % how)
+    return 1
+
 def run(rep, tier):
     # (a) configuration witnesses
     cfgs = all_configs() if tier == "thorough" else analysed_configs("quick")
@@ -795,6 +848,7 @@ def run(rep, tier):
     rep.floor("doubling-table multipliers", npd, 1)
     rep.floor("comb evaluators (coverage)", ncov, 2)
     rep.floor("n-fold doubling identity", sum(dbl_n_identity(rep, us[s_.label]) for s_ in aspecs) and 1, 1)
+    naf_headroom_rule(rep, us[aspecs[0].label])
     return driver.finish(
         rep, "other",
         "Static analysis of math/elliptic_curve.h: %d configurations compiled as witnesses, %d analysed in depth. "
